@@ -271,9 +271,11 @@ Definition exec_sub (k : skind) (lit : bool) : bool :=
      store is until a member of that element has been READ (the read materialises the element with its flags) - both
      are recorded as "test missing": the machine has no read history;
    - a const member further up the path (`const Inner in;`, `const Item[2] items;`) is never looked at;
-   - whole-sub-object stores: see the table (assigning a struct VARIABLE to an element of a struct array - x.items[i] = t,
-     x[i] = t - makes no test at all; a struct literal assigned to an element of a struct-array member is tested like a
-     declaration; x[i] = {..} on a const struct array is not tested).
+   - whole-sub-object stores: see the table (assigning a struct VARIABLE / element / call result to an element of a struct
+     array - x.items[i] = t, x[i] = t - tests the const of the array and of the variable it is a member of
+     (Interpreter::assign_struct_to_array_element, since the repair of C09-struct-array-element-assign) but no const
+     member inside the overwritten element; a struct literal assigned to an element of a struct-array member is tested
+     like a declaration; x[i] = {..} on a const struct array tests the array's const only (simple_assignment.cpp)).
    Shapes outside [exec_set] / [exec_sub] have no executor; the entries there say `true` (nothing can be stored). *)
 Definition pmech : ppolicy := fun st =>
   match st with
@@ -290,7 +292,9 @@ Definition pmech : ppolicy := fun st =>
   | PSub SkMember false _ => false
   | PSub SkMember true _ => true
   | PSub SkMemberElem true RRoot | PSub SkMemberElem true REdge | PSub SkMemberElem true RInStruct => true
+  | PSub SkMemberElem false RRoot | PSub SkMemberElem false REdge => true
   | PSub SkMemberElem _ _ => false
+  | PSub SkRootElem _ RRoot => true
   | PSub SkRootElem _ _ => false
   | PSub SkDeep _ _ => true
   end.
